@@ -189,6 +189,10 @@ const UNIVERSE3: &[&str] = &["Foo", "foo", "sub/FOO", "SUB/foo"];
 /// not always matched by the pattern it spells (`[a-f]oo` denotes `aoo` .. `foo`, not itself)
 const UNIVERSE4: &[&str] = &["[a-f]oo", "foo", "f?o", "sub/[a-f]oo"];
 
+/// names that sort between a prefix directory's own name and the names below it (`-`, `.` and the
+/// blank come before `/`): neighbours of the prefix in an ordered queue, not members of it
+const UNIVERSE5: &[&str] = &["sub-gen/foo", "sub.foo", "sub/foo", "dst/foo"];
+
 fn all_rules() -> Vec<ArtifactRule> {
     let mut v = vec![];
     for p in PATTERNS {
@@ -220,10 +224,11 @@ fn all_rules() -> Vec<ArtifactRule> {
 
 fn gen_arts(r: &mut Rng, normalized: bool) -> Vec<(String, u8)> {
     let mut v = vec![];
-    let uni = match r.below(7) {
+    let uni = match r.below(8) {
         0 | 1 | 2 => UNIVERSE,
         3 | 4 => UNIVERSE2,
         5 => UNIVERSE3,
+        6 => UNIVERSE5,
         _ => UNIVERSE4,
     };
     for p in uni {
@@ -232,7 +237,7 @@ fn gen_arts(r: &mut Rng, normalized: bool) -> Vec<(String, u8)> {
         }
     }
     if r.chance(1, 6) {
-        v.push((r.pick(&["subfoo", "dstfoo", "sub.foo", "sub", "dst", "su/foo", "subb/foo"]).to_string(), *r.pick(DIGEST_POOL)));
+        v.push((r.pick(&["subfoo", "dstfoo", "sub.foo", "sub", "dst", "su/foo", "subb/foo", "sub-gen/foo", "sub foo", "dst.d/foo", "sub!", "dst-"]).to_string(), *r.pick(DIGEST_POOL)));
     }
     if !normalized && r.chance(1, 2) {
         let odd = ["./foo", "sub//foo", "a/../foo", "/abs/foo", "sub/", ".", "", "..", "foo/.", "\u{e9}/x"];
@@ -343,7 +348,7 @@ pub fn run(cfg: &Cfg) {
     //      over every artifact universe subset with one digest choice
     let mut scope = 0u64;
     let subsets = if cfg.thorough { 16 } else { 16 };
-    for (uni, rule) in [UNIVERSE, UNIVERSE2, UNIVERSE3, UNIVERSE4].iter().flat_map(|u| rules.iter().map(move |rl| (*u, rl))) {
+    for (uni, rule) in [UNIVERSE, UNIVERSE2, UNIVERSE3, UNIVERSE4, UNIVERSE5].iter().flat_map(|u| rules.iter().map(move |rl| (*u, rl))) {
         for mask_m in 0..subsets {
             for mask_p in [0usize, 1, 5, 10, 15] {
                 if !cfg.thorough && (mask_m % 3 != 0) {
@@ -355,8 +360,15 @@ pub fn run(cfg: &Cfg) {
                 // the other link: same digests; different digests; the same sha256 value inside a different
                 // digest map (sha256+sha512 / sha512 only), so that "equal" means equal maps
                 for (other_m, other_p) in [(pick(15, 1), pick(15, 1)), (pick(5, 2), pick(10, 1)), (pick(15, 6), pick(15, 5))] {
-                    for in_products in [false, true] {
-                        let rl = vec![rule.clone(), ArtifactRule::Disallow(vp("*"))];
+                    // what follows the rule shows what it consumed: `DISALLOW *` (everything must be gone) and,
+                    // for a MATCH with a source prefix, `DISALLOW <prefix>/*` (exactly what lies below the
+                    // prefix must be gone - whatever else is still in the queue next to it)
+                    let followers: Vec<ArtifactRule> = match rule {
+                        ArtifactRule::Match { in_src: Some(p), .. } => vec![ArtifactRule::Disallow(vp("*")), ArtifactRule::Disallow(vp(&format!("{}/*", p)))],
+                        _ => vec![ArtifactRule::Disallow(vp("*"))],
+                    };
+                    for (follower, in_products) in followers.iter().flat_map(|f| [(f, false), (f, true)]) {
+                        let rl = vec![rule.clone(), follower.clone()];
                         let s = Scn {
                             item: "it".into(),
                             mats: if in_products { vec![] } else { rl.clone() },
@@ -370,7 +382,7 @@ pub fn run(cfg: &Cfg) {
             }
         }
     }
-    sink.note(&format!("systematic scope: {} scenarios = every single rule over kinds x patterns {:?} x optional prefixes {:?} x MATERIALS/PRODUCTS x present/absent step, followed by DISALLOW *, over artifact universes drawn from {:?} and {:?}", scope, PATTERNS, PREFIXES, UNIVERSE, UNIVERSE2));
+    sink.note(&format!("systematic scope: {} scenarios = every single rule over kinds x patterns {:?} x optional prefixes {:?} x MATERIALS/PRODUCTS x present/absent step, followed by DISALLOW *, over artifact universes drawn from {:?}, {:?}, {:?}, {:?} and {:?}", scope, PATTERNS, PREFIXES, UNIVERSE, UNIVERSE2, UNIVERSE3, UNIVERSE4, UNIVERSE5));
 
     // ---- systematic scope 2: material rules and product rules of one item together - one material rule,
     //      then two product rules, over artifacts that are materials *and* products of the item
